@@ -256,43 +256,17 @@ def fromNative (mkVer : List Char → Except TErr (List Char))
   | .error e => .error e
   | .ok rs => consOf mkVer vcmp rs
 
-/-- the loop of `from_natives(strings)` for a list of strings: `sorted` is what the range
-constructor may raise at the end of every `from_native` call (`.ok` for Maven, `nugetSortGuard`
-for NuGet; the order it produces is irrelevant for the multiset) -/
-def fromNativesLoop (sorted : List TCon → Except TErr (List TCon))
-    (mkVer : List Char → Except TErr (List Char))
+/-- `from_natives(strings)` for a list of strings: the constraints of every range (each one sorted
+by its constructor — irrelevant for the multiset) concatenated -/
+def fromNatives (mkVer : List Char → Except TErr (List Char))
     (vcmp : List Char → List Char → Ordering) : List (List Char) → Except TErr (List TCon)
   | [] => .ok []
   | s :: ss =>
     match fromNative mkVer vcmp s with
     | .error e => .error e
-    | .ok a0 =>
-      match sorted a0 with
+    | .ok a =>
+      match fromNatives mkVer vcmp ss with
       | .error e => .error e
-      | .ok a =>
-        match fromNativesLoop sorted mkVer vcmp ss with
-        | .error e => .error e
-        | .ok b => .ok (a ++ b)
-
-/-- `from_natives(strings)` for a list of strings -/
-def fromNatives (sorted : List TCon → Except TErr (List TCon))
-    (mkVer : List Char → Except TErr (List Char))
-    (vcmp : List Char → List Char → Ordering) (ss : List (List Char)) : Except TErr (List TCon) :=
-  match fromNativesLoop sorted mkVer vcmp ss with
-  | .error e => .error e
-  | .ok cs => sorted cs
-
-/-! ### what `sorted(constraints)` in the range constructor adds for NuGet
-
-`NugetVersion("")` is accepted with `value = None` (its `str` is `"None"`).  `sorted` compares
-`(version, comparator)` tuples; `<` between a `None`-valued and a proper `NugetVersion` raises
-`TypeError`, two `None`-valued ones are `==` and never reach `<`.  A comparison sort has to connect
-all elements by comparisons, hence it raises iff the list holds both kinds.  No proper
-`NugetVersion` prints as `"None"` (its `str` starts with a digit). -/
-def nugetSortGuard (cs : List TCon) : Except TErr (List TCon) :=
-  let isNone : TCon → Bool
-    | .mk _ v => v == "None".toList
-    | .star => false
-  if cs.any isNone && cs.any (fun c => !isNone c) then .error .TypeError else .ok cs
+      | .ok b => .ok (a ++ b)
 
 end Univers.Text.MavenRange
